@@ -257,7 +257,7 @@ def process(job):
     install_capture()
     import t2listing as T
     rel = job['rel']
-    res = {'rel': rel, 'cases': [], 'failures': [], 'stats': {}, 'subs': None, 'tok': []}
+    res = {'rel': rel, 'cases': [], 'failures': [], 'stats': {}, 'subs': None, 'tok': [], 'variant': job.get('subs') is not None}
     stats = res['stats']
     def fail(oracle, key, inp, observed, required):
         d = {'file': rel, 'subs': res['subs']}
@@ -303,12 +303,13 @@ def process(job):
             if type(e) is Exception: key += ':' + '-'.join(re.findall(r'[A-Za-z]+', str(e).split(':')[0])[:4])
             if 'Unable to parse table line' in str(e) and times:
                 bad = str(e).split('\n', 1)[1].rstrip('\r\n') if '\n' in str(e) else ''
+                # the row the reader names: a printed row of the first result time in which a no-letter
+                # exponent abuts the next number
                 for p in times[0]:
-                    r = layout_row(p)
-                    if r and r[5] == bad:
-                        for j in range(len(r[4]) - 1):
-                            if r[4][j][1] == r[4][j + 1][0] and token_form(r[4][j][2]) == 'noletter':
-                                key = FINDING15
+                    for r in p.rows:
+                        if r[5] == bad and any(r[4][j][1] == r[4][j + 1][0] and token_form(r[4][j][2]) == 'noletter'
+                                               for j in range(len(r[4]) - 1)):
+                            key = FINDING15
             if key != FINDING15 and times and first_row_fixed_then_signed(times[0]): key = NEG2
             fail('opens', key, {'time': None}, msg, 'the listing opens (every printed number is of a form the row format can print)')
             stats['open_raises'] = 1
@@ -445,7 +446,15 @@ def check_table(lst, tn, ti, ptabs, lines, fail, stats, res, job):
                  dict(base, row=k, column=T.column_name[j] if j < ncols else j, line_no=r[0], line=r[5]),
                  'cell = %r' % (got[j] if j < ncols else None), 'printed number %r' % (v,))
     # the Coq specification of the tokens is compared with the Python twin on the same rows
-    if ti == 0 and not str(lst.simulator).startswith('AUTOUGH'):
+    if not res['variant'] and not str(lst.simulator).startswith('AUTOUGH'):
+        # non-vacuity of cells_decode: printed rows whose numbers lie inside the inferred fields
+        v = list(T.row_format['values'])
+        for r in P.rows:
+            offs = len(r[3])
+            stats['rows_layout_checked'] = stats.get('rows_layout_checked', 0) + 1
+            if len(r[4]) + offs <= len(v) - 1 and all(v[j + offs] <= a and b <= v[j + offs + 1] for j, (a, b, t) in enumerate(r[4])):
+                stats['rows_in_layout'] = stats.get('rows_in_layout', 0) + 1
+    if ti == 0 and not res['variant'] and not str(lst.simulator).startswith('AUTOUGH'):
         r = layout_row(P)
         if r is not None:
             stats['layout_lines'] = stats.get('layout_lines', 0) + 1
